@@ -838,8 +838,8 @@ VARIANTS = [
       '        current.num_shards * num_shards,\n        current.start_index,\n    )',
       '        current.num_shards * num_shards,\n    )', 'R-C09-10'),
     B('skipped-records-not-counted-for-loop', _F,
-      '    while (result := next(self._it)) is _SKIPPED:\n      self._index += 1\n    self._index += 1\n    return result',
-      '    for result in self._it:\n      if result is _SKIPPED:\n        continue\n      self._index += 1\n      return result\n    raise StopIteration()',
+      '      while (result := next(self._it)) is _SKIPPED:\n        self._index += 1\n    except StopIteration:\n      raise',
+      '      for result in self._it:\n        if result is not _SKIPPED:\n          break\n      else:\n        raise StopIteration()\n    except StopIteration:\n      raise',
       'R-C09-4'),
     B('seq-idxs-not-cumulative', 'utils/iter_utils.py',
       '    self._seq_idxs.extend(itt.accumulate(map(len, self._sequences), op.add))',
